@@ -645,13 +645,13 @@ func applyHop(regs []*docState, h hop, tmp string) (obs *saveObs, err error) {
 		case !h.Footer && h.Variant == 0:
 			e = s.doc.AddHeader(hfTypes[h.HK], h.Text)
 		case !h.Footer && h.Variant == 1:
-			e = s.doc.AddHeaderWithPageNumber(hfTypes[h.HK], h.Text, true)
+			e = s.doc.AddHeaderWithPageNumber(hfTypes[h.HK], h.Text, (len(h.HK)+len(h.Text))%2 == 0)
 		case !h.Footer:
 			e = s.doc.AddFormattedHeader(hfTypes[h.HK], &document.HeaderFooterConfig{Text: h.Text, Format: &document.TextFormat{Bold: true}})
 		case h.Variant == 0:
 			e = s.doc.AddFooter(hfTypes[h.HK], h.Text)
 		case h.Variant == 1:
-			e = s.doc.AddFooterWithPageNumber(hfTypes[h.HK], h.Text, true)
+			e = s.doc.AddFooterWithPageNumber(hfTypes[h.HK], h.Text, (len(h.HK)+len(h.Text))%2 == 1)
 		default:
 			e = s.doc.AddFormattedFooter(hfTypes[h.HK], &document.HeaderFooterConfig{Text: h.Text, Format: &document.TextFormat{Italic: true}})
 		}
